@@ -726,3 +726,50 @@ func ParseZone(s string) *time.Location {
 func OptsOf(cs Case) Opts {
 	return Opts{Vars: DecodeVars(cs.Vars, cs.UseNum), Silent: cs.Silent, TZ: cs.TZ, Zone: ParseZone(cs.Zone)}
 }
+
+// SpareCap returns a deep copy of a decoded JSON value in which every array is
+// a sub-slice of one shared backing array, laid out in document order with
+// its capacity reaching to the end of that backing array (the shape a caller
+// gets who cuts pages out of one big slice). A library that appends to a slice
+// it was handed, instead of copying it, then writes into the arrays that
+// follow - visible as a modified document.
+func SpareCap(v any) any {
+	total := 0
+	var count func(v any)
+	count = func(v any) {
+		switch x := v.(type) {
+		case []any:
+			total += len(x)
+			for _, e := range x {
+				count(e)
+			}
+		case map[string]any:
+			for _, e := range x {
+				count(e)
+			}
+		}
+	}
+	count(v)
+	pool := make([]any, total+8)
+	off := 0
+	var carve func(v any) any
+	carve = func(v any) any {
+		switch x := v.(type) {
+		case []any:
+			start := off
+			off += len(x)
+			for i, e := range x {
+				pool[start+i] = carve(e)
+			}
+			return pool[start : start+len(x)]
+		case map[string]any:
+			m := make(map[string]any, len(x))
+			for _, k := range SortedKeys(x) {
+				m[k] = carve(x[k])
+			}
+			return m
+		}
+		return v
+	}
+	return carve(v)
+}
